@@ -40,14 +40,15 @@ let expand (tok : string) : n list =
   List.init (String.length bytes) (fun i -> n_of_int (Char.code bytes.[i]))
 
 let show (content : n list) : string =
-  let l = List.map int_of_n content in
-  if l = [] then "empty"
-  else if List.length l <= 40 && List.for_all (fun b -> b > 32 && b < 127) l then
-    String.init (List.length l) (fun i -> Char.chr (List.nth l i))
+  let arr = Array.of_list (List.rev (List.rev_map int_of_n content)) in
+  let len = Array.length arr in
+  if len = 0 then "empty"
+  else if len <= 40 && Array.for_all (fun b -> b > 32 && b < 127) arr then
+    String.init len (fun i -> Char.chr arr.(i))
   else begin
     let h = ref 0xcbf29ce484222325L in
-    List.iter (fun b -> h := Int64.mul (Int64.logxor !h (Int64.of_int b)) 0x100000001b3L) l;
-    Printf.sprintf "len:%d:fnv%016Lx" (List.length l) !h
+    Array.iter (fun b -> h := Int64.mul (Int64.logxor !h (Int64.of_int b)) 0x100000001b3L) arr;
+    Printf.sprintf "len:%d:fnv%016Lx" len !h
   end
 
 let chunks_of (data : n list) (k : int) : n list list =
